@@ -1211,6 +1211,160 @@ Proof.
   apply pending_prio_ok; [constructor|exact Hp].
 Qed.
 
+(** *** repeated Select yields the same sequence *)
+
+Definition counted (st : state) (k : key) : bool := 1 <? cnt_get (k_prio k) (pcounts st).
+Definition sw (st : state) (k : key) : Z := sender_weight (sget (k_sender k) (sidx st)) (k_nonce k).
+
+Lemma key_gt_asym a b : key_gt a b -> key_gt b a -> False.
+Proof. intros H1 H2. apply (key_gt_irrefl a). eapply key_gt_trans; eauto. Qed.
+
+Lemma pidx_set_remove_same k l : StronglySorted key_gt l -> In k l -> pidx_set k (pidx_remove k l) = l.
+Proof.
+  induction 1 as [|h r HS IH HF]; simpl; intros Hin; [contradiction|].
+  rewrite Forall_forall in HF.
+  destruct (key_cmp k h) eqn:E.
+  - apply key_cmp_eq in E. subst h. destruct r as [|h2 r2]; [reflexivity|].
+    simpl. assert (G : key_gt k h2) by (apply HF; now left). unfold key_gt in G. now rewrite G.
+  - simpl. rewrite E. f_equal. apply IH. destruct Hin as [->|]; [rewrite key_cmp_refl in E; discriminate|assumption].
+  - exfalso. destruct Hin as [->|Hin]; [rewrite key_cmp_refl in E; discriminate|].
+    eapply key_gt_asym; [exact E|now apply HF].
+Qed.
+
+Lemma pidx_set_In k l x : In x (pidx_set k l) -> x = k \/ In x l.
+Proof.
+  induction l as [|h r IH]; simpl; [intuition|].
+  destruct (key_cmp k h); simpl; intuition.
+Qed.
+
+Lemma same_tx_sw st dk ik : same_tx dk ik -> sw st ik = sw st dk /\ counted st ik = counted st dk.
+Proof. intros [Ep [Es En]]. unfold sw, counted. now rewrite Ep, Es, En. Qed.
+
+(** after the re-weighting fold, every key whose priority is shared carries the freshly computed weight *)
+Lemma reorder_fold_weights st pd : forall todo pi sc,
+  PInv pi sc pd ->
+  (forall dk ik, In (dk, ik) todo -> In dk pi /\ same_tx dk ik /\ k_weight ik = sw st dk) ->
+  NoDup (map (fun di => key_sn (fst di)) todo) ->
+  (forall k, In k pi -> counted st k = true -> k_weight k = sw st k \/ exists ik, In (k, ik) todo) ->
+  forall k, In k (fst (fold_left reorder_step todo (pi, sc))) -> counted st k = true -> k_weight k = sw st k.
+Proof.
+  induction todo as [|[dk ik] todo IH]; intros pi sc HP Htodo ND HQ k Hk Hc.
+  - simpl in Hk. destruct (HQ k Hk Hc) as [|[? []]]; assumption.
+  - cbn [fold_left] in Hk. destruct (Htodo dk ik (or_introl eq_refl)) as [Hdk [Hsame Hw]].
+    pose proof (PInv_step _ _ _ _ _ HP Hdk Hsame) as HP'.
+    destruct (reorder_step (pi, sc) (dk, ik)) as [pi' sc'] eqn:Est. cbn [fst snd] in HP'.
+    unfold reorder_step in Est. injection Est as Epi Esc.
+    inversion ND as [|? ? Hn ND']; subst.
+    eapply (IH _ _ HP'); [| assumption | | exact Hk | exact Hc].
+    + intros dk' ik' Hin. destruct (Htodo dk' ik' (or_intror Hin)) as [Hdk' [Hsame' Hw']].
+      split; [|auto].
+      assert (Hne : dk' <> dk) by (intros ->; apply Hn; apply in_map_iff; exists (dk, ik'); auto).
+      assert (Hik : ~ In ik (pidx_remove dk pi)).
+      { intros Hin2. pose proof (pidx_remove_incl _ _ _ Hin2) as Hin3. destruct Hsame as [? [? ?]].
+        assert (ik = dk) by (apply (PInv_sn_unique _ _ _ _ _ HP); auto). subst ik.
+        revert Hin2. apply pidx_remove_gone, (pinv_sorted _ _ _ HP). }
+      apply (Permutation_in _ (Permutation_sym (pidx_set_perm _ _ Hik))). right. now apply pidx_remove_keeps.
+    + intros k' Hk' Hc'. apply pidx_set_In in Hk'. destruct Hk' as [->|Hin].
+      * left. rewrite Hw. symmetry. apply (same_tx_sw st _ _ Hsame).
+      * assert (Hne : k' <> dk) by (intros ->; revert Hin; apply pidx_remove_gone, (pinv_sorted _ _ _ HP)).
+        destruct (HQ k' (pidx_remove_incl _ _ _ Hin) Hc') as [|[ik' [E|Hin']]]; [now left| |right; eauto].
+        inversion E; congruence.
+Qed.
+
+Lemma reorder_weights st pd :
+  Inv st pd -> forall k, In k (pidx (reorder st)) -> counted st k = true -> k_weight k = sw st k.
+Proof.
+  intros HI k Hk Hc. unfold reorder in Hk.
+  assert (HP : PInv (pidx st) (scores st) pd).
+  { constructor; [apply (inv_sorted _ _ HI)|apply (inv_sc1 _ _ HI)|apply (inv_sc2 _ _ HI)|apply (inv_pperm _ _ HI)]. }
+  assert (ND : NoDup (map (fun di => key_sn (fst di)) (reorder_list st))).
+  { unfold reorder_list. apply flat_map_opt_NoDup with (h := key_sn).
+    - intros a b Hb. destruct (1 <? cnt_get (k_prio a) (pcounts st)); simpl in Hb; [|contradiction].
+      destruct Hb as [<-|[]]. reflexivity.
+    - intros a. destruct (1 <? cnt_get (k_prio a) (pcounts st)); simpl; lia.
+    - now apply (Inv_key_sn_NoDup _ pd). }
+  pose proof (reorder_fold_weights st pd (reorder_list st) (pidx st) (scores st) HP) as HF.
+  destruct (fold_left reorder_step (reorder_list st) (pidx st, scores st)) as [pi sc] eqn:Ef. simpl in Hk.
+  apply HF; auto.
+  - intros dk ik Hin. destruct (reorder_list_spec st dk ik Hin) as [H1 H2]. split; [assumption|]. split; [assumption|].
+    unfold reorder_list in Hin. apply in_flat_map in Hin. destruct Hin as [k0 [_ Hin]].
+    destruct (1 <? cnt_get (k_prio k0) (pcounts st)); simpl in Hin; [|contradiction].
+    destruct Hin as [E|[]]. inversion E; subst. reflexivity.
+  - intros k0 Hk0 Hc0. right. exists (mkKey (k_prio k0) (sw st k0) (k_sender k0) (k_nonce k0)).
+    unfold reorder_list. apply in_flat_map. exists k0. split; [assumption|].
+    unfold counted in Hc0. rewrite Hc0. now left.
+Qed.
+
+(** a second re-weighting changes nothing observable *)
+Lemma reorder_fold_id : forall todo pi sc,
+  StronglySorted key_gt pi ->
+  (forall dk ik, In (dk, ik) todo -> ik = dk /\ In dk pi /\ aget sn_eqb (key_sn dk) sc = Some (kpw dk)) ->
+  fst (fold_left reorder_step todo (pi, sc)) = pi /\
+  forall x, aget sn_eqb x (snd (fold_left reorder_step todo (pi, sc))) = aget sn_eqb x sc.
+Proof.
+  induction todo as [|[dk ik] todo IH]; intros pi sc HS Htodo; [simpl; auto|].
+  cbn [fold_left]. destruct (Htodo dk ik (or_introl eq_refl)) as [-> [Hdk Hsc]].
+  unfold reorder_step at 2 4. rewrite (pidx_set_remove_same _ _ HS Hdk).
+  set (sc1 := aset sn_eqb (k_sender dk, k_nonce dk) (k_prio dk, k_weight dk) (adel sn_eqb (k_sender dk, k_nonce dk) sc)).
+  assert (Hext : forall x, aget sn_eqb x sc1 = aget sn_eqb x sc).
+  { intros x. unfold sc1. destruct (sn_eqb_spec x (k_sender dk, k_nonce dk)) as [->|Hne].
+    - rewrite (aget_aset_same sn_eqb sn_eqb_spec). symmetry. exact Hsc.
+    - rewrite (aget_aset_other sn_eqb sn_eqb_spec) by assumption. now rewrite (aget_adel_other sn_eqb sn_eqb_spec). }
+  destruct (IH pi sc1 HS) as [E1 E2].
+  - intros dk' ik' Hin. destruct (Htodo dk' ik' (or_intror Hin)) as [? [? ?]]. rewrite Hext. auto.
+  - split; [assumption|]. intros x. now rewrite E2.
+Qed.
+
+Lemma drain_ext s nxt sc1 sc2 l :
+  (forall s n, score_get s n sc1 = score_get s n sc2) -> drain s nxt sc1 l = drain s nxt sc2 l.
+Proof.
+  intros H. induction l as [|[n p] r IH]; cbn [drain]; [reflexivity|]. rewrite IH, H. reflexivity.
+Qed.
+
+Lemma walk_ext sc1 sc2 pi : (forall s n, score_get s n sc1 = score_get s n sc2) ->
+  forall cur, walk sc1 pi cur = walk sc2 pi cur.
+Proof.
+  intros H. induction pi as [|k rest IH]; intros cur; cbn [walk]; [reflexivity|].
+  rewrite (drain_ext _ _ sc1 sc2 _ H). destruct (drain _ _ sc2 _) as [[o rem] pn]. destruct pn; [reflexivity|]. now rewrite IH.
+Qed.
+
+Lemma select_idem_st st pd : Inv st pd -> select (fst (select_op st)) = select st.
+Proof.
+  intros HI. unfold select at 2. unfold select_op at 1 2.
+  destruct (pidx st) as [|k0 l0] eqn:E; [cbn [fst]; unfold select, select_op; now rewrite E|].
+  cbn [fst snd]. pose proof (Inv_reorder _ _ HI) as HI'.
+  pose proof (reorder_weights _ _ HI) as HW.
+  set (st' := reorder st) in *.
+  assert (Esidx : sidx st' = sidx st /\ pcounts st' = pcounts st).
+  { unfold st', reorder. destruct (fold_left reorder_step (reorder_list st) (pidx st, scores st)). auto. }
+  destruct Esidx as [Esidx Epc].
+  unfold select, select_op.
+  destruct (pidx st') as [|k1 l1] eqn:E'.
+  { exfalso. pose proof (Permutation_length (inv_pperm _ _ HI)) as L1. pose proof (Permutation_length (inv_pperm _ _ HI')) as L2.
+    rewrite E in L1. rewrite E' in L2. simpl in *. lia. }
+  cbn [fst snd]. rewrite <- E'.
+  destruct (reorder_fold_id (reorder_list st') (pidx st') (scores st') (inv_sorted _ _ HI')) as [F1 F2].
+  { intros dk ik Hin. unfold reorder_list in Hin. apply in_flat_map in Hin. destruct Hin as [k [Hk Hin]].
+    destruct (1 <? cnt_get (k_prio k) (pcounts st')) eqn:Ec; simpl in Hin; [|contradiction].
+    destruct Hin as [Eq|[]]. inversion Eq; subst dk ik. clear Eq.
+    assert (Hwk : k_weight k = sw st k) by (apply HW; [rewrite <- E'; assumption|unfold counted; now rewrite <- Epc]).
+    split; [|split; [assumption|apply (inv_sc1 _ _ HI' _ Hk)]].
+    unfold sw in Hwk. rewrite Esidx, <- Hwk. now destruct k. }
+  unfold reorder at 1 2 3. 
+  destruct (fold_left reorder_step (reorder_list st') (pidx st', scores st')) as [pi2 sc2]. cbn [fst snd] in *.
+  subst pi2. f_equal. apply walk_ext. intros s n. unfold score_get. now rewrite F2.
+Qed.
+
+Lemma run_app ops1 ops2 : run (ops1 ++ ops2) = fold_left step ops2 (run ops1).
+Proof. unfold run. apply fold_left_app. Qed.
+
+Lemma select_idempotent_proof ops :
+  unique_sender_nonce ops -> select (run (ops ++ [Select])) = select (run ops).
+Proof.
+  intros Hu. rewrite run_app. simpl. eapply select_idem_st. now apply Inv_run.
+Qed.
+
+
 (** ** Priority classes (over the generated table) *)
 Lemma priority_classes_proof :
   map fst Gen.C19.priority_table =
@@ -1264,3 +1418,6 @@ Proof.
   - intros [H|[H|[]]]; discriminate.
   - intros z Hz Hs _. destruct Hz as [<-|[<-|[<-|[<-|[<-|[]]]]]]; simpl in Hs; try discriminate; intros H; discriminate.
 Qed.
+
+Example ex_idempotent : select (run (ex_ops ++ [Select])) = select (run ex_ops) /\ scores (run (ex_ops ++ [Select])) <> scores (run (firstn 8 ex_ops)).
+Proof. split; [reflexivity|]. vm_compute. discriminate. Qed.
